@@ -8,7 +8,7 @@ LEVEL_TEXT = ("For every full-data execution of every family (all draw outcomes 
               "count for EVERY node subset; histories start at tmin, are ordered and legal; node_status/get_statuses return the latest change at or before every query time.")
 LEVEL_NOTE = "inherits the bounds of the families; discrete simulators under deterministic rules and integer horizon gap only (as the property states)"
 RULE = "every complete full-data execution is one evaluation (plus one replay in array mode); non-trivial = at least one event"
-BOUNDS = {"quick": "full-data specs of the quick bounds of C01, C02, C03, C11, C12(rules), C13, C15", "thorough": "same for the thorough bounds"}
+BOUNDS = {"quick": "full-data specs of the quick bounds of C01, C02, C03, C11, C12(rules), C13, C15; every accessor re-read after each subset query and after all status queries", "thorough": "same for the thorough bounds"}
 ASSUMPTIONS = []
 PROPS = ("C10",)
 
